@@ -21,7 +21,7 @@ theorem enumKw_lexeme (fl : Bool) (X : List Char) :
 theorem enumType_none (sp : Char → Bool) (B : List Char) : enumType sp ('{' :: B) = some (none, [], '{' :: B) := rfl
 
 theorem enumType_some {sp : Char → Bool} (hs : SpOK sp) (a t b B : List Char) (ha : blank a = true) (hb : blank b = true)
-    (htall : t.all (fun c => isWord c || c == ' ') = true) (c : Char) (t' : List Char) (ht : t = c :: t') (hc : isWord c = true)
+    (htall : t.all (fun c => isWord c || isWsA c) = true) (c : Char) (t' : List Char) (ht : t = c :: t') (hc : isWord c = true)
     (hlast : ∀ d, t.getLast? = some d → isWord d = true) :
     enumType sp (':' :: a ++ t ++ b ++ '{' :: B) = some (some t, ':' :: a ++ t ++ b, '{' :: B) := by
   have htbrace : (t ++ b).all (· != '{') = true := by
